@@ -165,7 +165,7 @@ def main(ctx):
     q = ctx.quick
     ns = (200, 1000, 10000) if q else (200, 1000, 10000, 50000)
     alphas = [1e-3, 0.01, 0.05, 0.2]
-    steps = [3, 7, 15, 30] if q else [1, 3, 7, 15, 30]
+    steps = [3, 7, 15, 30, 2.5] if q else [1, 3, 7, 15, 30, 2.5, 22.5]
     aes = [0.005, 0.01, 0.05, 0.2]
     lohis = [[10, 80], [5, 45], [30, 85], [0, 90]]
     cases = []
